@@ -103,11 +103,13 @@ def run(c):
     raise ValueError('unknown case type')
 
 
-class CaseTimeout(Exception):
+class CaseTimeout(BaseException):
     pass
 
 
 def _alarm(signum, frame):
+    import signal
+    signal.alarm(3)     # lcapy has bare `except:` clauses that can swallow this; fire again until the case is left
     raise CaseTimeout()
 
 
